@@ -1168,7 +1168,7 @@ class C06(PropCheck):
     id = 'C06'
     extractors = (precedence.generate, units.generate, c06_source.generate)
     modules = ('WpModel.Props.C06', 'WpModel.Props.C06Memo', 'WpModel.Props.C06Values', 'WpModel.Props.C06Ratio',
-               'WpModel.Props.C06Source', 'WpModel.Props.C06Spec', 'WpModel.Props.C06Hints',
+               'WpModel.Props.C06Source', 'WpModel.Props.C06Spec', 'WpModel.Props.C06Hints', 'WpModel.Props.C06Absolute',
                'WpModel.Witness.C06')
     trusted_base = (
         'modelled, not verified: StyleFor.__init__ / add_page_declarations weight fold, declaration_precedence, '
